@@ -29,8 +29,10 @@ CONSTANTS Acct,      \* local key-controlled accounts (strings)
           InitEsc,   \* FX escrowed per channel at the start (left earlier)
           InitPool,  \* T vouchers parked per channel at the start (arrived earlier)
           Form,      \* receiver forms of inbound packets, subset of {"bech", "hex"}
-          Dn,        \* denom classes of inbound packets, subset of {"fx", "tb", "t1", "vx"}:
-                     \*   FX coming home / bridged alias of T / registered voucher V / unknown voucher
+          Dn,        \* denom classes of inbound packets, subset of {"fx", "tb", "t1", "vx", "f1", "fh"}:
+                     \*   FX coming home / bridged alias of T / registered voucher V / unknown voucher /
+                     \*   the other chain's OWN token named "FX" (a foreign voucher here) / the same name after a multi-hop path
+          WChan,     \* channels on which the voucher of the foreign token named "FX" has a registered pair
           Memo       \* memo classes, subset of {"none", "junk", "good", "goodAs", "bad"}
 
 VARIABLES coin,   \* [Tok -> [Acct -> Nat]]   bank balances (FX, T base coin)
@@ -160,11 +162,16 @@ TheirFx(c) == esc[c]["FX"] - OpenAmt(c, "FX", BOOLEAN)
 (*        crosschain.ManyToOne takes it for a base denom): always refused  *)
 (*   t1 : V - converted to ERC-20 for a hex receiver, refused for bech32   *)
 (*   vx : unknown voucher - refused                                        *)
+(*   f1 : the other chain's own token that is merely NAMED "FX": a foreign  *)
+(*        voucher like V (ERC-20 for a hex receiver where it has a pair,    *)
+(*        refused otherwise); fh: the same name behind a multi-hop path,    *)
+(*        never registered - refused.  vrc/vpool count V and W together.    *)
 Recv(ch, u, rf, dn, memo, a) ==
   LET this == Op("Recv", ch, u, "none", a, 0, rf, dn, memo, "ok")
       i    == nin[ch] + 1
       cred == CASE dn = "fx" -> TRUE
                 [] dn = "t1" -> rf = "hex"
+                [] dn = "f1" -> rf = "hex" /\ ch \in WChan
                 [] OTHER     -> FALSE
       good == cred /\ memo # "bad"
       \* environment: an honest other chain can only send home FX it has received (escrowed and not in flight)
@@ -175,7 +182,7 @@ Recv(ch, u, rf, dn, memo, a) ==
      /\ IF good /\ dn = "fx"
         THEN coin' = [coin EXCEPT !["FX"][u] = @ + a] /\ esc' = [esc EXCEPT ![ch]["FX"] = @ - a]
         ELSE UNCHANGED <<coin, esc>>
-     /\ IF good /\ dn = "t1"
+     /\ IF good /\ dn \in {"t1", "f1"}
         THEN vrc' = [vrc EXCEPT ![ch][u] = @ + a] /\ vpool' = [vpool EXCEPT ![ch] = @ + a]
         ELSE UNCHANGED <<vrc, vpool>>
      /\ caller' = IF good /\ memo \in Calls THEN Imd(ch, memo) ELSE caller
